@@ -1,9 +1,9 @@
 (* C10 -- binary pack format.  Statements only; the model is Model.Pack (codecs) + Model.PackSpec (format limits
    pack_ok, expected result of unpack), the proofs are in Proofs.PackBits / PackRoundtrip / PackRoundtripGraph /
-   PackRoundtripMol / PackProofs. *)
+   PackRoundtripMol / PackLayout / PackProofs / PackRxn / F16Proofs. *)
 From Coq Require Import ZArith List Bool.
-From Model Require Import PyBase Pack PackSpec.
-From Proofs Require Import PackBits PackRoundtrip PackRoundtripGraph PackRoundtripMol PackProofs.
+From Model Require Import PyBase Pack PackSpec F16.
+From Proofs Require Import PackBits PackRoundtrip PackRoundtripGraph PackRoundtripMol PackLayout PackProofs PackRxn F16Proofs.
 Import ListNotations.
 Open Scope Z_scope.
 
@@ -17,9 +17,7 @@ Open Scope Z_scope.
    written. *)
 Theorem C10_unpack_pack : forall (m : pmol) (suf : list Z), pack_ok m = true ->
   exists bytes, pack m = Ok bytes /\
-    unpack (bytes ++ suf) =
-    Ok (mkUnpacked (map uatom_of (pm_atoms m)) (map adj_entry (pm_atoms m))
-                   (fwd_ct (pm_terminals m) (mol_fwd [] (pm_atoms m))) (Z.of_nat (length bytes))).
+    unpack (bytes ++ suf) = Ok (unpacked_of m (Z.of_nat (length bytes))).
 Proof. exact unpack_pack. Qed.
 Print Assumptions C10_unpack_pack.
 
@@ -33,6 +31,15 @@ Theorem C10_unpack_pack_nonvacuous :
   fwd_ct (pm_terminals pack_example) (mol_fwd [] (pm_atoms pack_example)) = [(3, 4, true)].
 Proof. exact pack_example_ok. Qed.
 Print Assumptions C10_unpack_pack_nonvacuous.
+
+(* LAYOUT, bit for bit: for every molecule within the format limits the bytes pack writes are the bytes of the published
+   version 2 layout (PackSpec.layout_v2: ONE bit stream written from the docstring -- 8 bit 0x02, 12 bit atom count,
+   12 bit cis/trans count; per atom 12 bit number, 4 bit neighbours, 2+2 bit stereo, 5 bit isotope offset, 7 bit element,
+   32 bit coordinates, 3 bit hydrogens, 4 bit charge+4, 1 bit radical; 12 bit neighbour numbers; 3 bit order codes
+   zero padded to a byte; per labelled bond 12+12 bit terminals, 7 bit zero, 1 bit sign) *)
+Theorem C10_pack_is_layout : forall m, pack_ok m = true -> pack m = Ok (bytes_of_bits (layout_v2 m)).
+Proof. exact pack_is_layout. Qed.
+Print Assumptions C10_pack_is_layout.
 
 (* LAYOUT, block level: pack m is header ++ 9-byte atom records ++ connection table ++ order block ++ cis/trans block *)
 Theorem C10_pack_blocks : forall m, pack_ok m = true ->
@@ -73,3 +80,68 @@ Theorem C10_rxn_split_correct : forall (A : Type) (rs ags ps : list A),
   rxn_split (rs ++ ags ++ ps) (Z.of_nat (length rs)) (Z.of_nat (length ags)) (Z.of_nat (length ps)) = (rs, ags, ps).
 Proof. exact @rxn_split_correct. Qed.
 Print Assumptions C10_rxn_split_correct.
+
+(* REACTION ROUND TRIP for ALL role sizes 0..255, empty sides included: ReactionContainer.pack of the molecule packs of
+   the three roles followed by unpack returns, role by role and in order, the molecule level result for every molecule
+   (pack_size m = the number of bytes of its pack, C10_pack_size_correct) *)
+Theorem C10_rxn_roundtrip : forall (rs ags ps : list pmol) (prs pas pps : list (list Z)),
+  Forall (fun m => pack_ok m = true) rs -> Forall (fun m => pack_ok m = true) ags -> Forall (fun m => pack_ok m = true) ps ->
+  map pack rs = map (@Ok _) prs -> map pack ags = map (@Ok _) pas -> map pack ps = map (@Ok _) pps ->
+  (length rs <= 255)%nat -> (length ags <= 255)%nat -> (length ps <= 255)%nat ->
+  exists bytes, rxn_pack prs pas pps = Ok bytes /\
+    rxn_unpack bytes = Ok (map (fun m => unpacked_of m (pack_size m)) rs, map (fun m => unpacked_of m (pack_size m)) ags,
+                           map (fun m => unpacked_of m (pack_size m)) ps).
+Proof. exact rxn_roundtrip. Qed.
+Print Assumptions C10_rxn_roundtrip.
+
+(* more than 255 molecules in a role: ValueError (bytearray of the header) *)
+Theorem C10_rxn_pack_limit : forall prs pas pps : list (list Z),
+  (255 < length prs \/ 255 < length pas \/ 255 < length pps)%nat -> rxn_pack prs pas pps = Err ValueError.
+Proof. exact rxn_pack_limit. Qed.
+Print Assumptions C10_rxn_pack_limit.
+
+(* HALF FLOAT coordinates.  All 63487 bit patterns with exponent field < 31 other than negative zero decode to a value
+   that encodes back to the same two bytes *)
+Theorem C10_f16_exact : forall a b, 0 <= a < 256 -> 0 <= b < 256 -> is_exception a b = false ->
+  let '(neg, M, E) := f16_decode a b in f16_encode neg M E = (a, b).
+Proof. exact f16_exact. Qed.
+Print Assumptions C10_f16_exact.
+
+(* the exceptions: negative zero and the 2048 patterns with exponent field 31 (no infinities in this format: they decode
+   to 65536..131008) are stored back as 0 0 *)
+Theorem C10_f16_exceptions : forall a b, 0 <= a < 256 -> 0 <= b < 256 -> is_exception a b = true ->
+  let '(neg, M, E) := f16_decode a b in f16_encode neg M E = (0, 0).
+Proof. exact f16_exceptions. Qed.
+Print Assumptions C10_f16_exceptions.
+
+(* truncation law, for EVERY dyadic +-M * 2^E with 2^-14 <= |x| < 65536 (e = floor log2 |x|): the stored value is
+   +-M' * 2^(e-10) with M' = floor (M * 2^(11 - bitlen M)) in [1024, 2048), i.e. |x| truncated toward zero to 11 bits *)
+Theorem C10_f16_truncates_normal : forall neg M E, 0 < M ->
+  let e := bitlen M + E - 1 in -14 <= e < 16 ->
+  let M' := scale M (11 - bitlen M) in
+  (let '(a, b) := f16_encode neg M E in f16_decode a b = (neg, M', e - 10)) /\
+  1024 <= M' < 2048 /\ is_floor_scaled M' M (11 - bitlen M) /\ (e - 10) + (11 - bitlen M) = E.
+Proof. exact f16_truncates_normal. Qed.
+Print Assumptions C10_f16_truncates_normal.
+
+(* 2^-25 <= |x| < 2^-14: truncated toward zero to a multiple of 2^-24 *)
+Theorem C10_f16_truncates_subnormal : forall neg M E, 0 < M ->
+  let e := bitlen M + E - 1 in -25 <= e < -14 ->
+  let M' := scale M (E + 24) in
+  (let '(a, b) := f16_encode neg M E in f16_decode a b = (neg, M', -24)) /\
+  0 <= M' < 1024 /\ is_floor_scaled M' M (E + 24).
+Proof. exact f16_truncates_subnormal. Qed.
+Print Assumptions C10_f16_truncates_subnormal.
+
+(* zero, |x| >= 65536 and |x| < 2^-25 are stored as 0 0 *)
+Theorem C10_f16_out_of_range : forall neg M E, 0 <= M ->
+  let e := bitlen M + E - 1 in M = 0 \/ 16 <= e \/ e < -25 -> f16_encode neg M E = (0, 0).
+Proof. exact f16_out_of_range. Qed.
+Print Assumptions C10_f16_out_of_range.
+
+(* non-vacuity of the truncation law: the double nearest 1/3 *)
+Theorem C10_f16_example :
+  f16_encode false 6004799503160661 (-54) = (53, 85) /\ f16_decode 53 85 = (false, 1365, -12) /\
+  bitlen 6004799503160661 + (-54) - 1 = -2.
+Proof. exact f16_example. Qed.
+Print Assumptions C10_f16_example.
